@@ -365,6 +365,31 @@ only the public key and the address of every server go through -/
 def throughRosterToml (g : List ServerId) : List ServerId :=
   g.map fun si => { si with services := [], description := [], url := [], priv := none }
 
+/-! ### the per-service keys of an identity (network/struct.go:213-258)
+
+`ServicePublic` / `ServicePrivate` / `HasServicePublic` / `HasServiceKeyPair`: a look-up by exact name in the slice
+of service identities, first match wins; a name without entry falls back to the server's own key (the `Has…`
+functions answer false).  Entries made by the readers always carry both keys (a group file's entry the zero
+scalar), so the two `Has…` functions coincide on identities that were read. -/
+
+/-- `ServerIdentity.ServicePublic(name)` -/
+def ServerId.servicePublic (si : ServerId) (name : Str) : Bytes :=
+  match si.services.find? (fun s => s.name == name) with
+  | some s => s.pub
+  | none => si.pub
+
+/-- `ServerIdentity.ServicePrivate(name)` (`none` = a nil scalar) -/
+def ServerId.servicePrivate (si : ServerId) (name : Str) : Option Bytes :=
+  match si.services.find? (fun s => s.name == name) with
+  | some s => some s.priv
+  | none => si.priv
+
+/-- `ServerIdentity.HasServicePublic(name)` -/
+def ServerId.hasServicePublic (si : ServerId) (name : Str) : Bool := si.services.any fun s => s.name == name
+
+/-- `ServerIdentity.HasServiceKeyPair(name)` -/
+def ServerId.hasServiceKeyPair (si : ServerId) (name : Str) : Bool := si.services.any fun s => s.name == name
+
 /-! ### line-protocol driver -/
 namespace Drv
 
@@ -398,6 +423,14 @@ def showRes (r : Res (List ServerId)) : String :=
   | .panic => "panic"
 
 /-- two servers that are in no file (what `Concat` adds) -/
+def showAcc (si : ServerId) (names : List Str) : String :=
+  "/".intercalate (names.map fun n =>
+    let pr := match si.servicePrivate n with | none => "none" | some p => Util.hex p
+    s!"{Util.hex (si.servicePublic n)}:{pr}:{if si.hasServicePublic n then 1 else 0}:{if si.hasServiceKeyPair n then 1 else 0}")
+
+def showAccs (g : List ServerId) (names : List Str) : String :=
+  "ok " ++ ";".intercalate (g.map fun si => showAcc si names)
+
 def outsider (i : Nat) : ServerId :=
   { pub := [255, i], ptype := 0, services := [], address := [], description := [], url := [], priv := none }
 
@@ -513,6 +546,26 @@ def step (s : State) (toks : List String) : State × String :=
                | .ok g => showGroup (afterUses g k)
                | r => showRes r)
     | _, _ => (s, "bad-op")
+  -- `acc <g|p> <names>`: the per-service keys of the identities of the group file / of the last private
+  -- configuration, asked for by name through the four accessors
+  | ["acc", which, names] =>
+    match (names.splitOn ",").mapM hx with
+    | none => (s, "bad-op")
+    | some ns =>
+      if which = "g" then
+        (s, match readGroup s.suites s.reg s.servers with
+            | .ok g => showAccs g ns
+            | .err => "err"
+            | .panic => "panic")
+      else if which = "p" then
+        match s.lastPriv with
+        | some hc =>
+          (s, match getServerIdentity s.suites s.reg (loadCothority hc) with
+              | .ok si => showAccs [si] ns
+              | .err => "err"
+              | .panic => "panic")
+        | none => (s, "bad-op")
+      else (s, "bad-op")
   | ["writeread", su, n] =>
     match hx su, n.toNat? with
     | some su, some _ =>
